@@ -237,6 +237,12 @@ theorem name_bare_or_quoted (name : Str) (hq : identNeedsQuotes name = false) (h
   simp only [Piece.ok, NameSpelling.ok, decide_eq_true_eq]
   exact expressible_of_bare name hq hne
 
+/-- **Raw whitespace.** The theorems above speak about the delivered text (`foldCR text`). A raw run
+of space, tab, LF, CR — in particular CR LF line ends — is delivered as a legal non-empty gap, so
+it may be written wherever a gap may. -/
+theorem raw_whitespace_is_gap (w : Str) (hne : w ≠ []) (h : ∀ c ∈ w, isRawWs c = true) :
+    ∃ g : Render.Gap, g ≠ [] ∧ gapOK g = true ∧ gapText g = foldCR w := foldCR_gap w hne h
+
 /-! ### the dispatch keywords in free spelling -/
 
 /-- Follow tokens through the regenerated dispatch tree from node `idx`: the handler the last one
